@@ -1,4 +1,5 @@
 """C14: evaluating a rule never crashes; what cannot be evaluated denies."""
+from common import corr_kind
 from world import base_case, run_cases, describe, out_of_model, agree
 from c06 import render_expr
 
@@ -37,6 +38,9 @@ def run(run, binfo):
         top = render_expr(rng, leaves, rng.randint(1, 6))
         lower = render_expr(rng, [l for l in leaves if not l.startswith('rule:')] or ['@'], rng.randint(1, 3))
         rules = {'top': top, 'lower': lower}
+        if rng.random() < 0.3:
+            rules['lone'] = rng.choice(['not', 'NOT', "'abc'", '""', '"role:admin"', '(', ')', 'and', 'or', 'not not'])
+            rules['top'] = rng.choice(['rule:lone', 'not rule:lone', '@ and rule:lone', 'rule:lone or ' + top])
         # list-form rules can carry any text, including whitespace and parentheses
         lf = []
         for _ in range(rng.randint(1, 3)):
@@ -49,7 +53,7 @@ def run(run, binfo):
         if r < 0.6:
             creds['roles'] = rng.choice([[], ['admin'], ['Admin', 'x'], ['é']])
         target = {k: rng.choice(VALUES) for k in rng.sample(['k', 'k2', 'other'], rng.randint(0, 3))}
-        q = rng.choice(['top', 'lower', 'listform', 'nope'])
+        q = rng.choice(['top', 'lower', 'listform', 'nope'] + (['lone'] if 'lone' in rules else []))
         dr = rng.random() < 0.3
         c = base_case(rules=rules, rule=('name', q), creds=creds, target=target, do_raise=dr,
                       exc=(7 if rng.random() < 0.3 else None),
@@ -104,7 +108,7 @@ def run(run, binfo):
     if bad_corr and not run.violations:
         c, m, i = bad_corr[0]
         run.violation('correspondence:S3', 'model and implementation disagree on a hostile rule',
-                      {'kind': 'broken-obligation', 'obligation': 'correspondence suite S3 (hostile leaves)',
+                      {'kind': corr_kind(m), 'oracle': 'the Coq model, for which the property is proved', 'obligation': 'correspondence suite S3 (hostile leaves)',
                        'input': describe(c), 'model': m, 'observed': i, 'count': len(bad_corr)})
     run.rule = ('%d acyclic rule sets whose leaves have left sides from a hostile alphabet of %d texts (Python keywords, '
                 'operators, brackets, digits, dots, quotes, huge integers, dunder names) or dotted paths, right sides with '
